@@ -393,6 +393,10 @@ class SAMIWriter(BaseWriter):
         self.last_time = None
 
     def write(self, caption_set):
+        # A span left open by an earlier write() on this object (a style start
+        # without its end) must not leak a closing tag into this document
+        self.open_span = False
+
         caption_set = deepcopy(caption_set)
         sami = BeautifulSoup(SAMI_BASE_MARKUP, "lxml-xml")
 
